@@ -477,8 +477,25 @@ Proof.
   induction argv as [|it argv IH]; intros cfg Hin F; [destruct Hin|].
   destruct Hin as [->|Hin].
   - simpl. rewrite F. eauto.
-  - simpl. destruct it as [k' v'|m].
+  - simpl. destruct it as [k' v'|k' v'|m].
     + destruct (find_act (p_acts p) k') as [[d' [|]]|]; eauto.
+      destruct (plain_ty d'); eauto. destruct (accepts t v'); eauto.
+    + destruct (find_act (p_acts p) k') as [[d' [|]]|]; eauto; destruct (d_alias d'); simpl; eauto.
+      destruct (plain_ty d'); eauto. destruct (accepts t v'); eauto.
+    + destruct (apply_cfg p cfg m); eauto.
+Qed.
+
+(* the same for the second spelling of the target's option *)
+Lemma parse_argv_linked_alias p k v d : forall argv cfg,
+  In (OptAlias k v) argv -> find_act (p_acts p) k = Some (d, true) -> exists e, parse_argv p cfg argv = Err e.
+Proof.
+  induction argv as [|it argv IH]; intros cfg Hin F; [destruct Hin|].
+  destruct Hin as [->|Hin].
+  - simpl. rewrite F. destruct (d_alias d); simpl; eauto.
+  - simpl. destruct it as [k' v'|k' v'|m].
+    + destruct (find_act (p_acts p) k') as [[d' [|]]|]; eauto.
+      destruct (plain_ty d'); eauto. destruct (accepts t v'); eauto.
+    + destruct (find_act (p_acts p) k') as [[d' [|]]|]; eauto; destruct (d_alias d'); simpl; eauto.
       destruct (plain_ty d'); eauto. destruct (accepts t v'); eauto.
     + destruct (apply_cfg p cfg m); eauto.
 Qed.
@@ -574,6 +591,21 @@ Proof.
   destruct (M a Ha Hk) as [d Hd].
   unfold parse, collect. destruct (defaults_and_env p env) as [cfg|e]; eauto.
   destruct (parse_argv_linked p (al_tgt a) v d argv cfg Hin Hd) as [e He]. rewrite He. eauto.
+Qed.
+
+Theorem target_option_rejected_any_spelling ds ls env argv a v :
+  let p := fst (build ds ls) in
+  In a (p_links p) -> al_kind a = TgtPlain ->
+  In (Opt (al_tgt a) v) argv \/ In (OptAlias (al_tgt a) v) argv ->
+  exists e, parse fn classes p (InArgs env argv) = Err e.
+Proof.
+  intros p Ha Hk Hin.
+  assert (M : marks_good p) by (apply add_links_marks; intros ? []).
+  destruct (M a Ha Hk) as [d Hd].
+  unfold parse, collect. destruct (defaults_and_env p env) as [cfg|e]; eauto.
+  destruct Hin as [Hin|Hin].
+  - destruct (parse_argv_linked p (al_tgt a) v d argv cfg Hin Hd) as [e He]. rewrite He. eauto.
+  - destruct (parse_argv_linked_alias p (al_tgt a) v d argv cfg Hin Hd) as [e He]. rewrite He. eauto.
 Qed.
 
 End WithFn2.
